@@ -377,7 +377,16 @@ def lower5(ctx) -> List[Ob]:
                     return True
         return False
 
-    walkers = [tr] + [f for f in ctx.prog.functions if f.parent_fn is cg or f is cg]
+    def _in_backend(f_) -> bool:
+        # a method of the back-end class, or a function nested in one (the per-region walk may live in
+        # codegen, in a closure of it, or in a method of its own)
+        while f_ is not None:
+            if f_.cls is back and f_.parent_fn is None:
+                return True
+            f_ = f_.parent_fn
+        return False
+
+    walkers = [tr] + [f for f in ctx.prog.functions if f is not tr and _in_backend(f)]
     for f in walkers:
         for lp in [n for n in A.walk_no_nested(f.node) if isinstance(n, ast.For)]:
             if not _view_iter(f, lp.iter):
@@ -392,7 +401,7 @@ def lower5(ctx) -> List[Ob]:
                     preds.append((who_, _norm_pred(s.test.operand, names[-1]), ctx.where(f, s)))
     # (2) per-region view: comprehension with `if not (<pred>)`
     for f in ctx.prog.functions:
-        if f.parent_fn is cg or f is cg:
+        if f is not tr and _in_backend(f):
             for comp in [n for n in A.walk_no_nested(f.node) if isinstance(n, (ast.GeneratorExp, ast.ListComp))]:
                 for g in comp.generators:
                     if _view_iter(f, g.iter) and isinstance(g.target, ast.Name):
